@@ -53,7 +53,12 @@ impl Monitor for C06 {
                     }
                     let span = until.saturating_sub(last.unwrap_or(0));
                     let abs = hash_of(&(until_epoch.is_some(), last.is_some(), span.min(20), paid.len(), r.capped.len()));
-                    if over.is_empty() {
+                    if over.is_empty() && !paid.is_empty() {
+                        rep.held_rich("no_overpay", abs, || {
+                            json!({"user": w.name_of(&user), "claimed_epochs": format!("({:?}, {until}]", last), "paid": paid.iter().map(|(d, a)| format!("{a}{d}")).collect::<Vec<_>>(),
+                                   "rightful_at_most": r.capped.iter().map(|(d, a)| format!("{a}{d}")).collect::<Vec<_>>()})
+                        });
+                    } else if over.is_empty() {
                         rep.held("no_overpay", abs, || {
                             json!({"user": w.name_of(&user), "claimed_epochs": format!("({:?}, {until}]", last), "paid": paid.iter().map(|(d, a)| format!("{a}{d}")).collect::<Vec<_>>(),
                                    "rightful_at_most": r.capped.iter().map(|(d, a)| format!("{a}{d}")).collect::<Vec<_>>()})
